@@ -38,6 +38,12 @@ DIM = {"m": "L", "km": "L", "mm": "L", "s": "T", "m/s": "L/T", "": "1", "m s": "
 
 
 def generate(tape, tier="quick"):
+    if tape.chance(1, 8):
+        # components that derive the metadata of some slots from other slots by info transfer rules (whole-info
+        # rules followed by single-field overrides among them) exist in the connect simulator: after a successful
+        # connect both ends of each of its links must agree as well (oracles meta-unset-field / meta-units there)
+        from .c06 import generate as gen_connect
+        return gen_connect(tape, tier)
     g = gen_structured(tape, max_dim=2, max_len=4)
     pgrid = tape.weighted([("G", 5), ("unset", 2), ("nogrid", 2)])
     prod = {"time": not tape.chance(1, 4), "grid": pgrid,
@@ -109,6 +115,13 @@ def generate(tape, tier="quick"):
 
 
 def execute(sc):
+    if sc.get("engine") == "E2":
+        from ..connect import run_e2
+        r = run_e2(sc)
+        viol = [x for x in r["violations"] if x["oracle"].startswith("meta-")]
+        return {"violations": viol, "digest": r["digest"], "probes": dict(r["probes"], connect_simulator_runs=1), "faults": {},
+                "nontrivial": r["status"] == "ok" and len(sc["links"]) >= 2, "sig": r["sig"], "sim_hours": 0,
+                "cls": "E2:" + r["status"], "outcome": {"engine": "E2", "status": r["status"]}}
     viol = []
 
     def v(oracle, kind, msg):
